@@ -7,9 +7,20 @@ HASH_SPEC = {"t": "All", "id": "A", "ch": [
     {"t": "Any", "id": "C", "ch": [{"t": "var", "id": "x", "occ": 2, "lo": "$lo_x2", "hi": "$hi_x2"}, {"t": "var", "id": "b", "lo": 0, "hi": 1}]}]}
 
 
+K_SPEC = {"t": "All", "id": "A", "ch": [
+    {"t": "Any", "id": "B", "ch": [{"t": "AtLeast", "id": "K", "value": "$v_K1", "sign": "$s_K1", "ch": [{"t": "var", "id": "a"}, {"t": "var", "id": "b"}]}, {"t": "var", "id": "c"}]},
+    {"t": "Any", "id": "C", "ch": [{"t": "AtLeast", "id": "K", "value": "$v_K2", "sign": "$s_K2", "ch": [{"t": "var", "id": "a"}, {"t": "var", "id": "b"}]}, {"t": "var", "id": "d"}]}]}
+
+
+def _model(spec):
+    if spec["part"] == "hash":
+        return K_SPEC if spec["what"] == "atleast" else HASH_SPEC
+    return spec["model"]
+
+
 def observe(spec, inputs):
     n = C.ns()
-    model = HASH_SPEC if spec["part"] == "hash" else spec["model"]
+    model = _model(spec)
     out = {"error": None}
     try:
         m = plspec.build(n, model, inputs["env"])
@@ -22,7 +33,7 @@ def observe(spec, inputs):
 
 
 def judge(spec, inputs, out, ob):
-    model = HASH_SPEC if spec["part"] == "hash" else spec["model"]
+    model = _model(spec)
     env = inputs["env"]
     WD = wd.welldefined(model, lambda x: plspec.P(env, x), lambda a, b: a == b, lambda xs: all(xs), True, False)
     if out["error"] is not None:
